@@ -26,7 +26,7 @@ PROPS = {
         "assumptions": TRUST,
     },
     "C02": {
-        "technique": "TLA+ implementation-shaped _cmp/__hash__ (ImplCmp.tla) model-checked against the order of instants (MC_C02, twins) + TLC trace validation of comparison, hash, sort and set executions incl. the repository's own tests",
+        "technique": "TLA+ implementation-shaped _cmp/__hash__ (ImplCmp.tla) model-checked against the order of instants (MC_C02, twins; the timeline's triple arithmetic proved exact for all integers with Apalache, TimelineLemmas.tla, thorough tier) + TLC trace validation of comparison, hash, sort and set executions incl. the repository's own tests",
         "level_text": "All six operators on every ordered pair of each pool, hash ids, sorted order, set size and transitivity of the real "
                       "library are judged by TLC against the order of the instants on the integer timeline; pools are built so that many "
                       "members are the same instant spelled differently (representation, offset, precision, 24:00) or 1 s apart across boundaries.",
@@ -266,7 +266,7 @@ PROPS = {
         "assumptions": TRUST + ["DurationParser / TimePointParser read back the CLI's own output (validated by C07, C10)"],
     },
     "C03": {
-        "technique": "TLA+ calendar definition (Cal.tla) model-checked with TLC (+ Apalache lemmas) and TLC trace validation of every conversion row of the real helpers",
+        "technique": "TLA+ calendar definition (Cal.tla) model-checked with TLC (+ Apalache lemmas for all integer years: year length, 400-year and weekday periodicity, ISO week-year rules; CalLemmas.tla, thorough tier) and TLC trace validation of every conversion row of the real helpers",
         "level_text": "Cal.tla is the proleptic definition; TLC checks it is self-consistent (inverse pairs, week rule, lengths) on every day "
                       "of the explored years, and every row produced by the six real conversion functions and the calendar queries is "
                       "validated by TLC against it - exhaustively over a 400-year cycle x 4 modes in the thorough tier.",
